@@ -10,6 +10,9 @@ pub fn any_v4() -> Ipv4Prefix {
     kani::assume(if len == 32 { true } else { bits & (u32::MAX >> len) == 0 });
     Ipv4Prefix { addr: Ipv4Addr::from_bits(bits), addr_len: len }
 }
+/// concrete prefix for harnesses in sibling modules (fields are private to api::roa)
+pub fn mk_v4(bits: u32, len: u8) -> Ipv4Prefix { Ipv4Prefix { addr: Ipv4Addr::from_bits(bits), addr_len: len } }
+pub fn mk_v6(bits: u128, len: u8) -> Ipv6Prefix { Ipv6Prefix { addr: Ipv6Addr::from_bits(bits), addr_len: len } }
 pub fn any_v6() -> Ipv6Prefix {
     let len: u8 = kani::any();
     let bits: u128 = kani::any();
@@ -45,10 +48,6 @@ fn k_nr_of_specific_prefixes_contract() {
     let p = any_payload();
     let _ = p.nr_of_specific_prefixes();
 }
-
-/// Test generated for harness `api::roa::vx_kani_k_api_roa::k_nr_of_specific_prefixes_contract` that checks contract for `RoaPayload::nr_of_specific_prefixes`
-///
-/// Check for `assertion`: "attempt to shift left with overflow"
 
 // C05: into_explicit_max_length makes max_length == Some(effective) and is idempotent, keeps validity
 #[kani::proof]
